@@ -149,3 +149,50 @@ def iter_tests(spec):
     for m in spec['modules']:
         if 'tree' in m:
             yield from walk(m['tree'])
+
+
+# ------------------------------------------------------------------------------------------------
+# output actions with unique tokens (C04, C07, C12, C13)
+
+OUT_STREAMS = ('o', 'e', 'p', 'ob', 'eb')
+
+
+def add_outputs(draw, spec, prob=50, streams=OUT_STREAMS, phases=('setUp', 'body', 'tearDown'), bad_bytes=True,
+                max_per_test=3):
+    """give tests output actions; every written token is unique in the world: 'Tk<n>q'.
+
+    Returns {token: (test id parts (module name, case, method), stream class 'o'|'e', phase)}."""
+    from . import runtime
+    tokens = {}
+    n = [0]
+    for m in spec['modules']:
+        modname = m['name']
+        for node, t in _iter_module_tests(m):
+            if draw(st.integers(0, 99)) >= prob:
+                continue
+            acts = t.setdefault('acts', {})
+            for _ in range(draw(st.integers(1, max_per_test))):
+                ph = draw(st.sampled_from(phases))
+                stream = draw(st.sampled_from(streams))
+                n[0] += 1
+                tok = 'Tk%dq' % n[0]
+                style = draw(st.sampled_from(['nl', 'nonl', 'multi', 'bad'] if bad_bytes and stream in ('ob', 'eb')
+                                             else ['nl', 'nonl', 'multi']))
+                text = {'nl': tok + '\n', 'nonl': tok, 'multi': 'first line\nsecond line\n' + tok,
+                        'bad': '\xff\xfe' + tok + '\xc3\n'}[style]
+                acts.setdefault(ph, []).append(['out', stream, text])
+                tokens[tok] = {'module': modname, 'case': node['name'], 'test': t['n'],
+                               'stream': 'e' if stream in ('e', 'eb') else 'o', 'phase': ph}
+    return tokens
+
+
+def _iter_module_tests(m):
+    def walk(node):
+        if node['t'] == 'c':
+            for t in node['tests']:
+                yield node, t
+        elif node['t'] == 's':
+            for ch in node['ch']:
+                yield from walk(ch)
+    if 'tree' in m:
+        yield from walk(m['tree'])
